@@ -93,6 +93,11 @@ def St.leaveOk (env : Env) (key : Key) (v : Val) (recs : List (Option (List Dep)
               (newCell env key.ty v sb.next)).1 with next := sb.next + 1 }
     key.ty sb.next (sb.lookup key).isSome
 
+/-- the entry that is under `key` after that insertion: the new one, or (keep-first) the one a
+recursive load of `key` put there while the loader ran -/
+def St.survivor (env : Env) (key : Key) (v : Val) (sb : St) : Cell :=
+  (sb.lookup key).getD (newCell env key.ty v sb.next)
+
 /-- the loader body failed in `sb`: the frame is popped and what it recorded is handed to the parent's frame -/
 def St.leaveErr (recs : List (Option (List Dep))) (sb : St) : St :=
   St.recordAll { sb with recs := recs } true sb.top
@@ -121,49 +126,53 @@ theorem loadAndRecord_hot (env : Env) (body : St → St × Outcome) (key : Key) 
   obtain ⟨sb, o⟩ := r
   cases o <;> rfl
 
+theorem survivor_eq (env : Env) (key : Key) (v : Val) (recs) (sb : St) :
+    ((St.send { sb with recs := recs } (.addAsset key sb.top)).insertKeepFirst key (newCell env key.ty v sb.next)).2 =
+      St.survivor env key v sb :=
+  (St.insertKeepFirst_lookup (St.send { sb with recs := recs } (.addAsset key sb.top)) key (newCell env key.ty v sb.next)).2
+
 theorem eval_load_miss (env : Env) (f : Nat) (s : St) (key : Key) (k : Except LErr Val → Prog)
     (hb : recordsAsset (env.types key.ty).hot env.hasReloader = true) (hl : s.lookup key = none) :
     eval env (f + 1) s (.load key k) =
       match eval env f (s.record true (.asset key)).enter ((env.types key.ty).prog key.id) with
       | (sb, .ok v) =>
-        eval env f (St.leaveOk env key v (s.record true (.asset key)).recs sb)
-          (k (.ok ((St.send { sb with recs := (s.record true (.asset key)).recs } (.addAsset key sb.top)).insertKeepFirst key
-              (newCell env key.ty v sb.next)).2.val))
+        eval env f (St.leaveOk env key v (s.record true (.asset key)).recs sb) (k (.ok (St.survivor env key v sb).val))
       | (sb, .err e) => eval env f (St.leaveErr (s.record true (.asset key)).recs sb) (k (.error (.wrapped key.id e)))
       | (sb, o) => ({ sb with recs := (s.record true (.asset key)).recs }, o) := by
   simp only [eval, hb, St.record_lookup, hl]
   rw [loadAndRecord_hot env _ key _ hb]
   generalize eval env f (s.record true (.asset key)).enter ((env.types key.ty).prog key.id) = r
   obtain ⟨sb, o⟩ := r
-  cases o <;> rfl
-
-theorem insertKeepFirst_fresh (s : St) (key : Key) (c : Cell) (h : s.lookup key = none) :
-    (s.insertKeepFirst key c).2 = c ∧ (s.insertKeepFirst key c).1.lookup key = some c := by
-  have h1 := St.insertKeepFirst_lookup s key c
-  rw [h] at h1
-  simp only [Option.getD_none] at h1
-  exact ⟨h1.2, by rw [h1.1, h1.2]⟩
+  cases o with
+  | ok v =>
+    simp only []
+    rw [← survivor_eq env key v (s.record true (.asset key)).recs sb]
+    rfl
+  | err e => rfl
+  | panicked => rfl
+  | diverged => rfl
 
 theorem eval_load_miss_ok (env : Env) (f : Nat) (s : St) (key : Key) (k : Except LErr Val → Prog)
     (hb : recordsAsset (env.types key.ty).hot env.hasReloader = true) (hl : s.lookup key = none)
     {sb : St} {v : Val}
-    (hbody : eval env f (s.record true (.asset key)).enter ((env.types key.ty).prog key.id) = (sb, .ok v))
-    (hnl : sb.lookup key = none) :
+    (hbody : eval env f (s.record true (.asset key)).enter ((env.types key.ty).prog key.id) = (sb, .ok v)) :
     eval env (f + 1) s (.load key k) =
-      eval env f (St.leaveOk env key v (s.record true (.asset key)).recs sb) (k (.ok v)) := by
+      eval env f (St.leaveOk env key v (s.record true (.asset key)).recs sb) (k (.ok (St.survivor env key v sb).val)) := by
   rw [eval_load_miss env f s key k hb hl, hbody]
-  simp only []
-  rw [(insertKeepFirst_fresh (St.send { sb with recs := (s.record true (.asset key)).recs } (.addAsset key sb.top)) key
-    (newCell env key.ty v sb.next) hnl).1]
-  rfl
 
-/-- what is cached under `key` after a successful nested load that did not lose the insertion -/
-theorem leaveOk_lookup_self (env : Env) (key : Key) (v : Val) (recs) (sb : St) (hnl : sb.lookup key = none) :
-    (St.leaveOk env key v recs sb).lookup key = some (newCell env key.ty v sb.next) := by
+/-- what is cached under `key` after a successful nested load -/
+theorem leaveOk_lookup_self (env : Env) (key : Key) (v : Val) (recs) (sb : St) :
+    (St.leaveOk env key v recs sb).lookup key = some (St.survivor env key v sb) := by
+  unfold St.leaveOk
+  rw [St.own_lookup, ← survivor_eq env key v recs sb]
+  exact (St.insertKeepFirst_lookup (St.send { sb with recs := recs } (.addAsset key sb.top)) key
+    (newCell env key.ty v sb.next)).1
+
+theorem leaveOk_lookup_other (env : Env) (key : Key) (v : Val) (recs) (sb : St) (k : Key) (hk : k ≠ key) :
+    (St.leaveOk env key v recs sb).lookup k = sb.lookup k := by
   unfold St.leaveOk
   rw [St.own_lookup]
-  exact (insertKeepFirst_fresh (St.send { sb with recs := recs } (.addAsset key sb.top)) key
-    (newCell env key.ty v sb.next) hnl).2
+  exact St.insertKeepFirst_other (St.send { sb with recs := recs } (.addAsset key sb.top)) key k _ hk
 
 theorem leaveOk_le (env : Env) (key : Key) (v : Val) (recs) (sb : St) : sb.Le (St.leaveOk env key v recs sb) := by
   unfold St.leaveOk
@@ -178,13 +187,29 @@ theorem leaveOk_recs (env : Env) (key : Key) (v : Val) (recs) (sb : St) : (St.le
 theorem leaveErr_map (recs) (sb : St) : (St.leaveErr recs sb).map = sb.map := by
   unfold St.leaveErr; rw [St.recordAll_map]
 
+theorem St.insertKeepFirst_out (s : St) (k : Key) (c : Cell) : (s.insertKeepFirst k c).1.out = s.out := by
+  unfold St.insertKeepFirst; split <;> rfl
+
+theorem leaveOk_out (env : Env) (key : Key) (v : Val) (recs) (sb : St) :
+    (St.leaveOk env key v recs sb).out = sb.out ++ [.addAsset key sb.top] := by
+  unfold St.leaveOk
+  rw [St.own_out]
+  exact St.insertKeepFirst_out _ _ _
+
+theorem St.recordAll_out (s : St) (on : Bool) (ds : List Dep) : (s.recordAll on ds).out = s.out := by
+  unfold St.recordAll
+  induction ds generalizing s with
+  | nil => rfl
+  | cons d ds ih => simp only [List.foldl]; rw [ih]; exact St.record_out s on d
+
+theorem leaveErr_out (recs) (sb : St) : (St.leaveErr recs sb).out = sb.out := by
+  unfold St.leaveErr; rw [St.recordAll_out]
+
 /-! ## Clean loading runs -/
 
 /-- `eval env f s p` is a **clean loading run** relative to the cache `fin` the whole load ends in.
 (Mirrors `eval` clause by clause, nested loader bodies included.) On the path the evaluation takes:
 * plain constructors only, every look-up and read recorded (as for `hitRun`);
-* **no lost insertion**: when the loader body of a missed key returns, the key is still absent (the
-  key was not loaded again, recursively, while its own loader ran);
 * **no absorbed failure**: when a nested load fails, the loader that asked for it does not go on to
   return a value;
 * **no probe of a key that gets filled**: a `get_cached` that finds nothing is for a key that is
@@ -215,8 +240,8 @@ def cleanRun (env : Env) (fin : St) : Nat → St → Prog → Bool
          cleanRun env fin f (s.record true (.asset key)).enter ((env.types key.ty).prog key.id) &&
          (match eval env f (s.record true (.asset key)).enter ((env.types key.ty).prog key.id) with
           | (sb, .ok v) =>
-            (sb.lookup key).isNone &&
-            cleanRun env fin f (St.leaveOk env key v (s.record true (.asset key)).recs sb) (k (.ok v))
+            cleanRun env fin f (St.leaveOk env key v (s.record true (.asset key)).recs sb)
+              (k (.ok (St.survivor env key v sb).val))
           | (sb, .err e) =>
             cleanRun env fin f (St.leaveErr (s.record true (.asset key)).recs sb) (k (.error (.wrapped key.id e))) &&
             (match (eval env f (St.leaveErr (s.record true (.asset key)).recs sb) (k (.error (.wrapped key.id e)))).2 with
@@ -232,7 +257,7 @@ def cleanRun (env : Env) (fin : St) : Nat → St → Prog → Bool
 
 /-- **Replay.** A clean run that returns `v`, re-evaluated in (a state with the map of) the cache
 the load ended in, is a tracked hit-only run with the same value and the same record: every asset it
-loaded is cached there (keep-first, no lost insertion), every key it probed in vain is still absent. -/
+loaded is cached there (keep-first), every key it probed in vain is still absent. -/
 theorem clean_replay {env : Env} (hS : env.Steady) {fin0 fin : St} (hfin : ∀ k, fin0.lookup k = none → fin.lookup k = none) :
     ∀ (f : Nat) (p : Prog) (s : St) (ds : List Dep) (rs : List (Option (List Dep))) (v : Val),
     s.recs = some ds :: rs → cleanRun env fin0 f s p = true → (eval env f s p).2 = .ok v →
@@ -317,11 +342,10 @@ theorem clean_replay {env : Env} (hS : env.Steady) {fin0 fin : St} (hfin : ∀ k
           rw [hbody] at hc
           cases ob with
           | ok v' =>
-            simp only [Bool.and_eq_true, Option.isNone_iff_eq_none] at hc
-            obtain ⟨hnl, hc⟩ := hc
-            rw [eval_load_miss_ok env f s key k hb hl hbody hnl] at ho hle ⊢
-            have hcell := leaveOk_lookup_self env key v' (s.record true (.asset key)).recs sb hnl
-            have htl : t.lookup key = some (newCell env key.ty v' sb.next) :=
+            simp only [] at hc
+            rw [eval_load_miss_ok env f s key k hb hl hbody] at ho hle ⊢
+            have hcell := leaveOk_lookup_self env key v' (s.record true (.asset key)).recs sb
+            have htl : t.lookup key = some (St.survivor env key v' sb) :=
               (ht key).trans (((eval_mono env f _ _).trans hle) key _ hcell)
             rw [eval_load_hit env f t key k _ htl, hb]
             simp only [hitRun, hb, Bool.true_and, St.record_lookup, htl]
@@ -352,163 +376,47 @@ def MsgGood (env : Env) (fuel : Nat) (fin : St) (k : Key) (D : List Dep) : Prop 
   ∃ c, fin.lookup k = some c ∧ reloadHit env fuel fin k = true ∧ reloadOut env fuel fin k = .ok c.val ∧
     reloadDeps env fuel fin k = D
 
-theorem St.insertKeepFirst_out (s : St) (k : Key) (c : Cell) : (s.insertKeepFirst k c).1.out = s.out := by
-  unfold St.insertKeepFirst; split <;> rfl
-
-theorem leaveOk_out (env : Env) (key : Key) (v : Val) (recs) (sb : St) :
-    (St.leaveOk env key v recs sb).out = sb.out ++ [.addAsset key sb.top] := by
-  unfold St.leaveOk
-  rw [St.own_out]
-  exact St.insertKeepFirst_out _ _ _
-
-theorem St.recordAll_out (s : St) (on : Bool) (ds : List Dep) : (s.recordAll on ds).out = s.out := by
-  unfold St.recordAll
-  induction ds generalizing s with
-  | nil => rfl
-  | cons d ds ih => simp only [List.foldl]; rw [ih]; exact St.record_out s on d
-
-theorem leaveErr_out (recs) (sb : St) : (St.leaveErr recs sb).out = sb.out := by
-  unfold St.leaveErr; rw [St.recordAll_out]
-
-/-- the registration a successful nested load sends is good in the final cache -/
-theorem clean_msg_good {env : Env} (hS : env.Steady) {fuel : Nat} {fin0 fin : St}
+/-- re-evaluating, in the final cache and with the full fuel, a loader whose body ran clean and
+returned `v` with record `sb.top`: a tracked hit-only run, the same value, the same record -/
+theorem clean_body_replay {env : Env} (hS : env.Steady) {fuel : Nat} {fin0 fin : St}
     (hfin : ∀ k, fin0.lookup k = none → fin.lookup k = none) {f : Nat} (hf : f ≤ fuel)
     {s0 : St} {key : Key} {sb : St} {v : Val} {rs : List (Option (List Dep))}
     (hs0 : s0.recs = some [] :: rs)
     (hc : cleanRun env fin0 f s0 ((env.types key.ty).prog key.id) = true)
     (hbody : eval env f s0 ((env.types key.ty).prog key.id) = (sb, .ok v))
-    (hle : sb.Le fin) {c : Cell} (hcell : fin.lookup key = some c) (hv : c.val = v) :
-    MsgGood env fuel fin key sb.top := by
+    (hle : sb.Le fin) :
+    reloadHit env fuel fin key = true ∧ reloadOut env fuel fin key = .ok v ∧ reloadDeps env fuel fin key = sb.top := by
   have hrep := clean_replay hS hfin f _ s0 [] rs v hs0 hc (by rw [hbody]) (by rw [hbody]; exact hle)
     fin.fresh [] (fun _ => rfl) rfl
   rw [hbody] at hrep
   obtain ⟨r1, r2, r3⟩ := hrep
   obtain ⟨g1, g2⟩ := hitRun_fuel env f fuel _ fin.fresh hf r1 (by rw [r2]; exact fun h => by cases h)
-  refine ⟨c, hcell, g1, ?_, ?_⟩
-  · unfold reloadOut; rw [reloadEval_eq]; simp only []; rw [g2, r2, hv]
+  refine ⟨g1, ?_, ?_⟩
+  · unfold reloadOut; rw [reloadEval_eq]; simp only []; rw [g2, r2]
   · unfold reloadDeps; rw [reloadEval_eq]; simp only []; rw [g2, r3]
 
-/-- **Every registration of a clean run is good**: each `AddAsset` message the run adds to the channel
-names an asset that is cached in the final cache `fin`, holds there what re-evaluating its loader
-returns, and carries exactly what that re-evaluation reads. -/
-theorem clean_msgs {env : Env} (hS : env.Steady) (fuel : Nat) {fin0 fin : St}
+/-- **What a clean run adds to the channel and to the cache.** The channel after the run is the
+channel before followed by registrations that are all good in the final cache `fin` (the asset is
+cached there, holds what re-evaluating its loader returns, the message carries exactly what that
+re-evaluation reads), and every key the run cached has one of them. -/
+theorem clean_out {env : Env} (hS : env.Steady) (fuel : Nat) {fin0 fin : St}
     (hfin : ∀ k, fin0.lookup k = none → fin.lookup k = none) :
     ∀ (f : Nat) (p : Prog) (s : St), f ≤ fuel → cleanRun env fin0 f s p = true → (eval env f s p).1.Le fin →
-    ∀ m, m ∈ (eval env f s p).1.out → m ∈ s.out ∨ ∃ k D, m = .addAsset k D ∧ MsgGood env fuel fin k D := by
+    ∃ new : List Msg, (eval env f s p).1.out = s.out ++ new ∧
+      (∀ m, m ∈ new → ∃ k D, m = .addAsset k D ∧ MsgGood env fuel fin k D) ∧
+      (∀ k c, (eval env f s p).1.lookup k = some c → s.lookup k = some c ∨ ∃ D, Msg.addAsset k D ∈ new) := by
   intro f
   induction f with
-  | zero => intro p s _ _ _ m hm; exact Or.inl hm
+  | zero =>
+    intro p s _ _ _
+    exact ⟨[], (List.append_nil _).symm, fun _ h => (by cases h), fun _ _ h => Or.inl h⟩
   | succ f ih =>
-    intro p s hf hc hle m hm
+    intro p s hf hc hle
     have hf' : f ≤ fuel := by omega
-    cases p with
-    | ret v => exact Or.inl hm
-    | fail e => exact Or.inl hm
-    | panic => exact Or.inl hm
-    | read id ext k =>
-      simp only [cleanRun, Bool.and_eq_true] at hc
-      obtain ⟨hb, hc⟩ := hc
-      simp only [eval, hb] at hle hm
-      rcases ih _ _ hf' hc hle m hm with h | h
-      · exact Or.inl (by rw [← St.record_out s true (.file id ext)]; exact h)
-      · exact Or.inr h
-    | readDir id k =>
-      simp only [cleanRun, Bool.and_eq_true] at hc
-      obtain ⟨hb, hc⟩ := hc
-      simp only [eval, hb] at hle hm
-      rcases ih _ _ hf' hc hle m hm with h | h
-      · exact Or.inl (by rw [← St.record_out s true (.dir id)]; exact h)
-      · exact Or.inr h
-    | getCached key k =>
-      simp only [cleanRun, Bool.and_eq_true] at hc
-      obtain ⟨⟨hb, _⟩, hc⟩ := hc
-      simp only [eval, hb, St.record_lookup] at hle hm
-      rcases ih _ _ hf' hc hle m hm with h | h
-      · exact Or.inl (by rw [← St.record_out s true (.asset key)]; exact h)
-      · exact Or.inr h
-    | tick k =>
-      simp only [cleanRun] at hc
-      simp only [eval] at hle hm
-      exact ih _ _ hf' hc hle m hm
-    | load key k =>
-      simp only [cleanRun, Bool.and_eq_true] at hc
-      obtain ⟨hb, hc⟩ := hc
-      cases hl : s.lookup key with
-      | some c =>
-        rw [hl] at hc
-        simp only [] at hc
-        rw [eval_load_hit env f s key k c hl, hb] at hle hm
-        rcases ih _ _ hf' hc hle m hm with h | h
-        · exact Or.inl (by rw [← St.record_out s true (.asset key)]; exact h)
-        · exact Or.inr h
-      | none =>
-        rw [hl] at hc
-        simp only [Bool.and_eq_true] at hc
-        obtain ⟨hcb, hc⟩ := hc
-        have hout0 : (s.record true (.asset key)).enter.out = s.out := St.record_out s true _
-        cases hbody : eval env f (s.record true (.asset key)).enter ((env.types key.ty).prog key.id) with
-        | mk sb ob =>
-          rw [hbody] at hc
-          have ihb := ih ((env.types key.ty).prog key.id) (s.record true (.asset key)).enter hf' hcb
-          rw [hbody, hout0] at ihb
-          simp only [] at ihb
-          cases ob with
-          | ok v' =>
-            simp only [Bool.and_eq_true, Option.isNone_iff_eq_none] at hc
-            obtain ⟨hnl, hc⟩ := hc
-            rw [eval_load_miss_ok env f s key k hb hl hbody hnl] at hle hm
-            have hle1 : (St.leaveOk env key v' (s.record true (.asset key)).recs sb).Le fin :=
-              (eval_mono env f _ _).trans hle
-            have hsb : sb.Le fin := (leaveOk_le env key v' _ sb).trans hle1
-            rcases ih _ _ hf' hc hle m hm with h | h
-            · rw [leaveOk_out, List.mem_append, List.mem_singleton] at h
-              rcases h with h | h
-              · exact ihb hsb m h
-              · refine Or.inr ⟨key, sb.top, h, ?_⟩
-                have hs0 : (s.record true (.asset key)).enter.recs = some [] :: (s.record true (.asset key)).recs := rfl
-                exact clean_msg_good hS hfin hf' hs0 hcb hbody hsb
-                  (hle1 key _ (leaveOk_lookup_self env key v' _ sb hnl)) rfl
-            · exact Or.inr h
-          | err e =>
-            simp only [Bool.and_eq_true] at hc
-            rw [eval_load_miss env f s key k hb hl, hbody] at hle hm
-            simp only [] at hle hm
-            have hsb : sb.Le fin :=
-              (St.Le.of_map_eq (leaveErr_map (s.record true (.asset key)).recs sb)).trans ((eval_mono env f _ _).trans hle)
-            rcases ih _ _ hf' hc.1 hle m hm with h | h
-            · rw [leaveErr_out] at h; exact ihb hsb m h
-            · exact Or.inr h
-          | panicked =>
-            rw [eval_load_miss env f s key k hb hl, hbody] at hle hm
-            exact ihb ((St.Le.of_map_eq rfl).trans hle) m hm
-          | diverged =>
-            rw [eval_load_miss env f s key k hb hl, hbody] at hle hm
-            exact ihb ((St.Le.of_map_eq rfl).trans hle) m hm
-    | noRecord body k => simp only [cleanRun] at hc; cases hc
-    | onThread body k => simp only [cleanRun] at hc; cases hc
-    | tryCatch body k => simp only [cleanRun] at hc; cases hc
-    | loadOwned key k => simp only [cleanRun] at hc; cases hc
-
-/-! ## Every asset a clean run caches is registered -/
-
-theorem leaveOk_lookup_other (env : Env) (key : Key) (v : Val) (recs) (sb : St) (k : Key) (hk : k ≠ key) :
-    (St.leaveOk env key v recs sb).lookup k = sb.lookup k := by
-  unfold St.leaveOk
-  rw [St.own_lookup]
-  exact St.insertKeepFirst_other (St.send { sb with recs := recs } (.addAsset key sb.top)) key k _ hk
-
-/-- A clean run keeps the messages of the channel, and sends an `AddAsset` for every key it caches. -/
-theorem clean_registers {env : Env} (fin : St) :
-    ∀ (f : Nat) (p : Prog) (s : St), cleanRun env fin f s p = true →
-    (∀ m, m ∈ s.out → m ∈ (eval env f s p).1.out) ∧
-    (∀ k c, (eval env f s p).1.lookup k = some c → s.lookup k = some c ∨ ∃ D, Msg.addAsset k D ∈ (eval env f s p).1.out) := by
-  intro f
-  induction f with
-  | zero => intro p s _; exact ⟨fun _ h => h, fun _ _ h => Or.inl h⟩
-  | succ f ih =>
-    intro p s hc
-    have base : (∀ m, m ∈ s.out → m ∈ s.out) ∧ (∀ k c, s.lookup k = some c → s.lookup k = some c ∨ ∃ D, Msg.addAsset k D ∈ s.out) :=
-      ⟨fun _ h => h, fun _ _ h => Or.inl h⟩
+    have base : ∃ new : List Msg, s.out = s.out ++ new ∧
+        (∀ m, m ∈ new → ∃ k D, m = .addAsset k D ∧ MsgGood env fuel fin k D) ∧
+        (∀ k c, s.lookup k = some c → s.lookup k = some c ∨ ∃ D, Msg.addAsset k D ∈ new) :=
+      ⟨[], (List.append_nil _).symm, fun _ h => (by cases h), fun _ _ h => Or.inl h⟩
     cases p with
     | ret v => exact base
     | fail e => exact base
@@ -516,34 +424,34 @@ theorem clean_registers {env : Env} (fin : St) :
     | read id ext k =>
       simp only [cleanRun, Bool.and_eq_true] at hc
       obtain ⟨hb, hc⟩ := hc
-      simp only [eval, hb]
-      obtain ⟨i1, i2⟩ := ih _ _ hc
-      refine ⟨fun m hm => i1 m (by rw [← St.record_out s true (.file id ext)] at hm; exact hm), fun x c hx => ?_⟩
-      rcases i2 x c hx with h | h
+      simp only [eval, hb] at hle ⊢
+      obtain ⟨new, i1, i2, i3⟩ := ih _ _ hf' hc hle
+      refine ⟨new, by rw [i1]; exact congrArg (· ++ new) (St.record_out s true (.file id ext)), i2, fun x c hx => ?_⟩
+      rcases i3 x c hx with h | h
       · exact Or.inl ((St.lookup_congr (St.record_map s true (.file id ext)) x).symm.trans h)
       · exact Or.inr h
     | readDir id k =>
       simp only [cleanRun, Bool.and_eq_true] at hc
       obtain ⟨hb, hc⟩ := hc
-      simp only [eval, hb]
-      obtain ⟨i1, i2⟩ := ih _ _ hc
-      refine ⟨fun m hm => i1 m (by rw [← St.record_out s true (.dir id)] at hm; exact hm), fun x c hx => ?_⟩
-      rcases i2 x c hx with h | h
+      simp only [eval, hb] at hle ⊢
+      obtain ⟨new, i1, i2, i3⟩ := ih _ _ hf' hc hle
+      refine ⟨new, by rw [i1]; exact congrArg (· ++ new) (St.record_out s true (.dir id)), i2, fun x c hx => ?_⟩
+      rcases i3 x c hx with h | h
       · exact Or.inl ((St.lookup_congr (St.record_map s true (.dir id)) x).symm.trans h)
       · exact Or.inr h
     | getCached key k =>
       simp only [cleanRun, Bool.and_eq_true] at hc
       obtain ⟨⟨hb, _⟩, hc⟩ := hc
-      simp only [eval, hb, St.record_lookup]
-      obtain ⟨i1, i2⟩ := ih _ _ hc
-      refine ⟨fun m hm => i1 m (by rw [← St.record_out s true (.asset key)] at hm; exact hm), fun x c hx => ?_⟩
-      rcases i2 x c hx with h | h
+      simp only [eval, hb, St.record_lookup] at hle ⊢
+      obtain ⟨new, i1, i2, i3⟩ := ih _ _ hf' hc hle
+      refine ⟨new, by rw [i1]; exact congrArg (· ++ new) (St.record_out s true (.asset key)), i2, fun x c hx => ?_⟩
+      rcases i3 x c hx with h | h
       · exact Or.inl ((St.record_lookup s true _ x).symm.trans h)
       · exact Or.inr h
     | tick k =>
       simp only [cleanRun] at hc
-      simp only [eval]
-      exact ih _ _ hc
+      simp only [eval] at hle ⊢
+      exact ih _ _ hf' hc hle
     | load key k =>
       simp only [cleanRun, Bool.and_eq_true] at hc
       obtain ⟨hb, hc⟩ := hc
@@ -551,10 +459,10 @@ theorem clean_registers {env : Env} (fin : St) :
       | some c =>
         rw [hl] at hc
         simp only [] at hc
-        rw [eval_load_hit env f s key k c hl, hb]
-        obtain ⟨i1, i2⟩ := ih _ _ hc
-        refine ⟨fun m hm => i1 m (by rw [← St.record_out s true (.asset key)] at hm; exact hm), fun x c hx => ?_⟩
-        rcases i2 x c hx with h | h
+        rw [eval_load_hit env f s key k c hl, hb] at hle ⊢
+        obtain ⟨new, i1, i2, i3⟩ := ih _ _ hf' hc hle
+        refine ⟨new, by rw [i1]; exact congrArg (· ++ new) (St.record_out s true (.asset key)), i2, fun x c hx => ?_⟩
+        rcases i3 x c hx with h | h
         · exact Or.inl ((St.record_lookup s true _ x).symm.trans h)
         · exact Or.inr h
       | none =>
@@ -566,48 +474,117 @@ theorem clean_registers {env : Env} (fin : St) :
         cases hbody : eval env f (s.record true (.asset key)).enter ((env.types key.ty).prog key.id) with
         | mk sb ob =>
           rw [hbody] at hc
-          obtain ⟨b1, b2⟩ := ih ((env.types key.ty).prog key.id) (s.record true (.asset key)).enter hcb
-          rw [hbody] at b1 b2
-          simp only [hout0, hlk0] at b1 b2
+          have ihb := ih ((env.types key.ty).prog key.id) (s.record true (.asset key)).enter hf' hcb
+          rw [hbody] at ihb
+          simp only [hout0, hlk0] at ihb
           cases ob with
           | ok v' =>
-            simp only [Bool.and_eq_true, Option.isNone_iff_eq_none] at hc
-            obtain ⟨hnl, hc⟩ := hc
-            rw [eval_load_miss_ok env f s key k hb hl hbody hnl]
-            obtain ⟨i1, i2⟩ := ih _ _ hc
-            have hmsg : Msg.addAsset key sb.top ∈ (St.leaveOk env key v' (s.record true (.asset key)).recs sb).out := by
-              rw [leaveOk_out]; exact List.mem_append_right _ (List.mem_singleton.mpr rfl)
-            refine ⟨fun m hm => i1 m (by rw [leaveOk_out]; exact List.mem_append_left _ (b1 m hm)), fun x c hx => ?_⟩
-            rcases i2 x c hx with h | h
-            · by_cases hxk : x = key
-              · subst hxk; exact Or.inr ⟨sb.top, i1 _ hmsg⟩
-              · rw [leaveOk_lookup_other env key v' _ sb x hxk] at h
-                rcases b2 x c h with h2 | ⟨D, h2⟩
-                · exact Or.inl h2
-                · exact Or.inr ⟨D, i1 _ (by rw [leaveOk_out]; exact List.mem_append_left _ h2)⟩
-            · exact Or.inr h
+            simp only [] at hc
+            rw [eval_load_miss_ok env f s key k hb hl hbody] at hle ⊢
+            have hle1 : (St.leaveOk env key v' (s.record true (.asset key)).recs sb).Le fin :=
+              (eval_mono env f _ _).trans hle
+            have hsb : sb.Le fin := (leaveOk_le env key v' _ sb).trans hle1
+            obtain ⟨newb, b1, b2, b3⟩ := ihb hsb
+            obtain ⟨newc, c1, c2, c3⟩ := ih _ _ hf' hc hle
+            have hs0 : (s.record true (.asset key)).enter.recs = some [] :: (s.record true (.asset key)).recs := rfl
+            obtain ⟨p1, p2, p3⟩ := clean_body_replay hS hfin hf' hs0 hcb hbody hsb
+            have hfk : fin.lookup key = some (St.survivor env key v' sb) :=
+              hle1 key _ (leaveOk_lookup_self env key v' _ sb)
+            -- the surviving entry holds the value the body returned
+            have hval : (St.survivor env key v' sb).val = v' := by
+              cases hsk : sb.lookup key with
+              | none => unfold St.survivor; rw [hsk]; rfl
+              | some c0 =>
+                have hs : St.survivor env key v' sb = c0 := by unfold St.survivor; rw [hsk]; rfl
+                rcases b3 key c0 hsk with h | ⟨D0, h⟩
+                · rw [hl] at h; cases h
+                · obtain ⟨k', D', e, c', hc', _, m2, _⟩ := b2 _ h
+                  obtain ⟨ek, _⟩ := Msg.addAsset.inj e
+                  subst ek
+                  rw [hfk, hs] at hc'
+                  have ec : c0 = c' := by simpa using hc'
+                  subst ec
+                  rw [p2] at m2
+                  rw [hs]
+                  exact (Outcome.ok.inj m2).symm
+            have hgood : MsgGood env fuel fin key sb.top := ⟨_, hfk, p1, by rw [p2, hval], p3⟩
+            refine ⟨newb ++ [.addAsset key sb.top] ++ newc, ?_, ?_, ?_⟩
+            · rw [c1, leaveOk_out, b1]; simp only [List.append_assoc]
+            · intro m hm
+              rcases List.mem_append.mp hm with hm | hm
+              · rcases List.mem_append.mp hm with hm | hm
+                · exact b2 m hm
+                · exact ⟨key, sb.top, List.mem_singleton.mp hm, hgood⟩
+              · exact c2 m hm
+            · intro x c hx
+              rcases c3 x c hx with h | ⟨D, h⟩
+              · by_cases hxk : x = key
+                · subst hxk
+                  exact Or.inr ⟨sb.top, List.mem_append_left _ (List.mem_append_right _ (List.mem_singleton.mpr rfl))⟩
+                · rw [leaveOk_lookup_other env key v' _ sb x hxk] at h
+                  rcases b3 x c h with h2 | ⟨D, h2⟩
+                  · exact Or.inl h2
+                  · exact Or.inr ⟨D, List.mem_append_left _ (List.mem_append_left _ h2)⟩
+              · exact Or.inr ⟨D, List.mem_append_right _ h⟩
           | err e =>
             simp only [Bool.and_eq_true] at hc
-            rw [eval_load_miss env f s key k hb hl, hbody]
-            simp only []
-            obtain ⟨i1, i2⟩ := ih _ _ hc.1
-            refine ⟨fun m hm => i1 m (by rw [leaveErr_out]; exact b1 m hm), fun x c hx => ?_⟩
-            rcases i2 x c hx with h | h
-            · rw [St.lookup_congr (leaveErr_map (s.record true (.asset key)).recs sb) x] at h
-              rcases b2 x c h with h2 | ⟨D, h2⟩
-              · exact Or.inl h2
-              · exact Or.inr ⟨D, i1 _ (by rw [leaveErr_out]; exact h2)⟩
-            · exact Or.inr h
+            rw [eval_load_miss env f s key k hb hl, hbody] at hle ⊢
+            simp only [] at hle ⊢
+            have hsb : sb.Le fin :=
+              (St.Le.of_map_eq (leaveErr_map (s.record true (.asset key)).recs sb)).trans ((eval_mono env f _ _).trans hle)
+            obtain ⟨newb, b1, b2, b3⟩ := ihb hsb
+            obtain ⟨newc, c1, c2, c3⟩ := ih _ _ hf' hc.1 hle
+            refine ⟨newb ++ newc, ?_, ?_, ?_⟩
+            · rw [c1, leaveErr_out, b1]; simp only [List.append_assoc]
+            · intro m hm
+              rcases List.mem_append.mp hm with hm | hm
+              · exact b2 m hm
+              · exact c2 m hm
+            · intro x c hx
+              rcases c3 x c hx with h | ⟨D, h⟩
+              · rw [St.lookup_congr (leaveErr_map (s.record true (.asset key)).recs sb) x] at h
+                rcases b3 x c h with h2 | ⟨D, h2⟩
+                · exact Or.inl h2
+                · exact Or.inr ⟨D, List.mem_append_left _ h2⟩
+              · exact Or.inr ⟨D, List.mem_append_right _ h⟩
           | panicked =>
-            rw [eval_load_miss env f s key k hb hl, hbody]
-            exact ⟨b1, b2⟩
+            rw [eval_load_miss env f s key k hb hl, hbody] at hle ⊢
+            exact ihb ((St.Le.of_map_eq rfl).trans hle)
           | diverged =>
-            rw [eval_load_miss env f s key k hb hl, hbody]
-            exact ⟨b1, b2⟩
+            rw [eval_load_miss env f s key k hb hl, hbody] at hle ⊢
+            exact ihb ((St.Le.of_map_eq rfl).trans hle)
     | noRecord body k => simp only [cleanRun] at hc; cases hc
     | onThread body k => simp only [cleanRun] at hc; cases hc
     | tryCatch body k => simp only [cleanRun] at hc; cases hc
     | loadOwned key k => simp only [cleanRun] at hc; cases hc
+
+/-- **Every registration of a clean run is good**: each `AddAsset` message the run adds to the channel
+names an asset that is cached in the final cache `fin`, holds there what re-evaluating its loader
+returns, and carries exactly what that re-evaluation reads. -/
+theorem clean_msgs {env : Env} (hS : env.Steady) (fuel : Nat) {fin0 fin : St}
+    (hfin : ∀ k, fin0.lookup k = none → fin.lookup k = none) :
+    ∀ (f : Nat) (p : Prog) (s : St), f ≤ fuel → cleanRun env fin0 f s p = true → (eval env f s p).1.Le fin →
+    ∀ m, m ∈ (eval env f s p).1.out → m ∈ s.out ∨ ∃ k D, m = .addAsset k D ∧ MsgGood env fuel fin k D := by
+  intro f p s hf hc hle m hm
+  obtain ⟨new, h1, h2, _⟩ := clean_out hS fuel hfin f p s hf hc hle
+  rw [h1] at hm
+  rcases List.mem_append.mp hm with h | h
+  · exact Or.inl h
+  · exact Or.inr (h2 m h)
+
+/-- A clean run keeps the messages of the channel, and sends an `AddAsset` for every key it caches. -/
+theorem clean_registers {env : Env} (hS : env.Steady) (fuel : Nat) {fin0 fin : St}
+    (hfin : ∀ k, fin0.lookup k = none → fin.lookup k = none) :
+    ∀ (f : Nat) (p : Prog) (s : St), f ≤ fuel → cleanRun env fin0 f s p = true → (eval env f s p).1.Le fin →
+    (∀ m, m ∈ s.out → m ∈ (eval env f s p).1.out) ∧
+    (∀ k c, (eval env f s p).1.lookup k = some c → s.lookup k = some c ∨ ∃ D, Msg.addAsset k D ∈ (eval env f s p).1.out) := by
+  intro f p s hf hc hle
+  obtain ⟨new, h1, _, h3⟩ := clean_out hS fuel hfin f p s hf hc hle
+  rw [h1]
+  refine ⟨fun m hm => List.mem_append_left _ hm, fun k c hk => ?_⟩
+  rcases h3 k c hk with h | ⟨D, h⟩
+  · exact Or.inl h
+  · exact Or.inr ⟨D, List.mem_append_right _ h⟩
 
 /-! ## `Settled` through the registrations, and for the assets cached before -/
 
@@ -725,7 +702,8 @@ theorem evalTop_settles {env : Env} (hS : env.Steady) {fuel : Nat} {s : St} {r :
   have hfin0 : ∀ k, (evalTop env fuel s p).1.lookup k = none → fin.lookup k = none := fun k h => by rw [← hlk k]; exact h
   have hmsgs := clean_msgs hS fuel hfin0 fuel p { s with recs := [] } (Nat.le_refl _) hclean
     (by rw [hfin]; exact St.Le.refl fin)
-  obtain ⟨_, hreg⟩ := clean_registers (evalTop env fuel s p).1 fuel p { s with recs := [] } hclean
+  obtain ⟨_, hreg⟩ := clean_registers hS fuel hfin0 fuel p { s with recs := [] } (Nat.le_refl _) hclean
+    (by rw [hfin]; exact St.Le.refl fin)
   rw [hfin] at hmsgs hreg
   refine settled_congr hS (s := fin) (fun k => hlk k) ?_
   rw [houtE]
@@ -814,7 +792,8 @@ theorem evalTop_pending {env : Env} (hS : env.Steady) {fuel : Nat} {s : St} {g :
   have hfin0 : ∀ k, (evalTop env fuel s p).1.lookup k = none → fin.lookup k = none := fun k h => by rw [← hlk k]; exact h
   have hmsgs := clean_msgs hS fuel hfin0 fuel p { s with recs := [] } (Nat.le_refl _) hclean
     (by rw [hfin]; exact St.Le.refl fin)
-  obtain ⟨hkeepm, hreg⟩ := clean_registers (evalTop env fuel s p).1 fuel p { s with recs := [] } hclean
+  obtain ⟨hkeepm, hreg⟩ := clean_registers hS fuel hfin0 fuel p { s with recs := [] } (Nat.le_refl _) hclean
+    (by rw [hfin]; exact St.Le.refl fin)
   rw [hfin] at hmsgs hreg hkeepm
   have hgoodE : ∀ k D, MsgGood env fuel fin k D → MsgGood env fuel (evalTop env fuel s p).1 k D :=
     fun k D h => h.keep hS (fun k c hc => (hlk k).trans hc) (fun y _ hy => (hlk y).trans hy)
